@@ -12,7 +12,7 @@
  *        into the scatter list, in order; returns 0 at EOF or for a request of 0 bytes.
  *   sk_wait() is what the stub MasterEventEngine::wait_for_fd of the harness calls: returns 0 (ready), or -1 with
  *        errno ETIMEDOUT, or -1 with a symbolic non-zero errno (the interrupter's).
- * Every nondeterministic choice is a recorded input (nondet_u8 in sk_setup), so counterexamples list them.
+ * Every nondeterministic choice is a recorded input (drawn in sk_setup), so counterexamples list them.
  * The stub also records protocol facts the harness asserts on: number of syscalls / waits, a syscall issued after EAGAIN
  * without waiting first (busy spin), a syscall or wait issued after a terminal failure was reported, wrong descriptor or
  * direction, a wait whose absolute deadline differs from the caller's.
@@ -181,3 +181,15 @@ uint32_t ext_sk_wait(uint32_t fd, uint32_t interest, uint64_t expiration)
     sk_q[Q_FAILED] = 1; sk_q[Q_LAST_ERRNO] = e; sk_errno(e);
     return (uint32_t)-1;
 }
+
+/* KernelSocketStream harness (OP >= 50): the other virtual methods of the stream (close, shutdown, get/setsockopt, get*name,
+ * sendfile) are referenced by its vtable but are not called by the harness; reaching one of their system calls is reported. */
+#define SK_NOTREACHED(ret) __CPROVER_assert(0, "stub: system call outside the harness reached"); __CPROVER_assume(0); return ret
+uint32_t ext_close(uint32_t fd) { SK_NOTREACHED(0); }
+uint32_t ext_shutdown(uint32_t fd, uint32_t how) { SK_NOTREACHED(0); }
+uint32_t ext_setsockopt(uint32_t fd, uint32_t level, uint32_t name, char* val, uint32_t len) { SK_NOTREACHED(0); }
+uint32_t ext_getsockopt(uint32_t fd, uint32_t level, uint32_t name, char* val, char* len) { SK_NOTREACHED(0); }
+uint64_t ext_sendfile(uint32_t out, uint32_t in, char* off, uint64_t n) { SK_NOTREACHED(0); }
+uint32_t ext_getsockname(uint32_t fd, char* addr, char* len) { SK_NOTREACHED(0); }
+uint32_t ext_getpeername(uint32_t fd, char* addr, char* len) { SK_NOTREACHED(0); }
+char* ext_strncpy(char* d, char* s, uint64_t n) { SK_NOTREACHED(d); }
